@@ -128,6 +128,8 @@ class N(tuple):
         return self[0]
 
 
+TYPE_SIZE = {"u8": 1, "i8": 1, "u16": 2, "i16": 2, "u32": 4, "i32": 4, "f32": 4, "u64": 8, "i64": 8, "f64": 8, "usize": 8, "isize": 8,
+             "u128": 16, "i128": 16}
 BINPREC = {"||": 1, "&&": 2, "==": 3, "!=": 3, "<": 3, ">": 3, "<=": 3, ">=": 3, "|": 4, "^": 5, "&": 6, "<<": 7, ">>": 7,
            "+": 8, "-": 8, "*": 9, "/": 9, "%": 9}
 ASSIGN = {"=", "+=", "-=", "*=", "/=", "%=", "^=", "&=", "|=", "<<=", ">>="}
@@ -548,14 +550,14 @@ class Parser:
             return self.mk("loop", start, w, hdr, body)
         # path
         segs = [w]
+        generics = None
         while self.at("::"):
             self.next()
             if self.at("<"):
-                self.skip_balanced()
+                a, b = self.skip_balanced()
+                generics = self.src[a:b].strip()
             else:
                 segs.append(self.next().text)
-        if self.at("<") and w in ("Vec", "Option", "Box") and self.peek(1).kind == "id":
-            pass
         if self.at("!") and not self.at("=", 1) and self.peek(1).text in ("(", "[", "{"):
             self.next()
             inner = self.skip_balanced()
@@ -578,7 +580,9 @@ class Parser:
                     self.next()
             self.expect("}")
             return self.mk("struct", start, segs, fields)
-        return self.mk("path", start, segs)
+        node = self.mk("path", start, segs)
+        node.generics = generics
+        return node
 
     def struct_ahead(self):
         """after `Path {`: is this a struct literal (`ident:` / `ident,` / `ident }` / `}` / `..`)?"""
@@ -608,6 +612,18 @@ class Parser:
                 els = self.parse_braced_block()
         return self.mk("if", start, cond, then, els)
 
+    def range_bound(self):
+        """the upper bound of a range pattern: a literal, a constant or a path such as i32::MAX (None if absent)"""
+        if self.peek().kind in ("num", "chr"):
+            return int_of(self.next().text)
+        if self.peek().kind == "id" and self.peek().text not in ("if",):
+            segs = [self.next().text]
+            while self.at("::"):
+                self.next()
+                segs.append(self.next().text)
+            return ("const", "::".join(segs))
+        return None
+
     # -- patterns
     def parse_pattern(self, no_alt=False):
         start = self.peek().pos
@@ -633,10 +649,7 @@ class Parser:
                 v = int_of(t.text)
             if self.at("..=") or self.at(".."):
                 op = self.next().text
-                hi = None
-                if self.peek().kind in ("num", "chr", "id"):
-                    h = self.next()
-                    hi = int_of(h.text) if h.kind != "id" else ("const", h.text)
+                hi = self.range_bound()
                 return self.mk("p_range", start, v, hi, op == "..=")
             return self.mk("p_int", start, v)
         if t.kind == "str":
@@ -702,11 +715,8 @@ class Parser:
             return self.mk("p_bind", start, w, sub)
         if self.at("..=") or self.at(".."):
             op = self.next().text
-            hi = None
-            if self.peek().kind in ("num", "chr", "id"):
-                h = self.next()
-                hi = int_of(h.text) if h.kind != "id" else ("const", h.text)
-            return self.mk("p_range", start, ("const", w), hi, op == "..=")
+            hi = self.range_bound()
+            return self.mk("p_range", start, ("const", "::".join(segs)), hi, op == "..=")
         if len(segs) == 1 and (w[0].islower() or w[0] == "_") :
             return self.mk("p_bind", start, w, None)
         return self.mk("p_path", start, segs)
@@ -793,6 +803,7 @@ class Evaluator:
         self.src, self.X, self.depth = src, X, depth
         self.effects = []
         self._fn_cache = {}
+        self.lenient = False
         self.inject = {}        # name -> value: a `let` (or any pattern) that binds this name binds the given value instead
 
     # ---- helpers
@@ -826,6 +837,16 @@ class Evaluator:
                 return self.ev(node, {}, p, scopes)
         return None
 
+    def bound_value(self, name, scopes):
+        if "::" in name:
+            node, p = parse_expression(name)
+            v = self.ev(node, {}, p, scopes)
+        else:
+            v = self.const_value(name, scopes)
+        if not isinstance(v, int):
+            raise Unknown("range bound " + name)
+        return v
+
     # ---- patterns
     def pmatch(self, pat, val, env, scopes):
         """does val match pat? binds into env.  Raises Unknown when it cannot be decided."""
@@ -850,9 +871,9 @@ class Evaluator:
             self.need_int(val)
             lo, hi = pat[1], pat[2]
             if isinstance(lo, tuple):
-                lo = self.const_value(lo[1], scopes)
+                lo = self.bound_value(lo[1], scopes)
             if isinstance(hi, tuple):
-                hi = self.const_value(hi[1], scopes)
+                hi = self.bound_value(hi[1], scopes)
             if lo is not None and val < lo:
                 return False
             if hi is not None and (val > hi if pat[3] else val >= hi):
@@ -903,12 +924,37 @@ class Evaluator:
 
     # ---- blocks
     def run_block(self, node, env, p, scopes):
+        outer = env
         env = dict(env)
-        for s in node[1]:
-            self.run_stmt(s, env, p, scopes)
-        if node[2] is not None:
-            return self.ev(node[2], env, p, scopes)
-        return ("Unit",)
+        declared = set()
+        try:
+            for s in node[1]:
+                if s.kind == "let":
+                    declared.update(self.binders(s[1]))
+                try:
+                    self.run_stmt(s, env, p, scopes)
+                except Unknown:
+                    if not self.lenient:
+                        raise
+                    # lenient mode (used to ask "which code can this input reach"): the rest of the block, from the statement
+                    # whose decision is unknown, is recorded as one effect and the run ends as 'unknown'
+                    self.effect(p.src[s.span[0]:node.span[1]], env)
+                    raise Leave("unknown")
+            if node[2] is not None:
+                try:
+                    return self.ev(node[2], env, p, scopes)
+                except Unknown:
+                    if not self.lenient:
+                        raise
+                    self.effect(p.src[node[2].span[0]:node.span[1]], env)
+                    raise Leave("unknown")
+            return ("Unit",)
+        finally:
+            # assignments to variables of the enclosing block are visible there; this block's own lets are not
+            for k in outer:
+                if k in env and k not in declared:
+                    outer[k] = env[k]
+            self.last_env = env
 
     def run_stmt(self, s, env, p, scopes):
         k = s.kind
@@ -943,6 +989,10 @@ class Evaluator:
                 env[lhs[1][0]] = self.ev(rhs, env, p, scopes)
                 return
             if lhs.kind == "path" and len(lhs[1]) == 1 and lhs[1][0] in env:
+                cur, rv = env[lhs[1][0]], self.ev(rhs, env, p, scopes)
+                if isinstance(cur, int) and not isinstance(cur, bool) and isinstance(rv, int) and not isinstance(rv, bool) and op in ("+=", "-=", "*="):
+                    env[lhs[1][0]] = cur + rv if op == "+=" else cur - rv if op == "-=" else cur * rv
+                    return
                 env[lhs[1][0]] = Opaque(p.text(s))
             self.effect(p.text(s), env)
             return
@@ -1005,12 +1055,12 @@ class Evaluator:
                 c = self.const_value(name, scopes)
                 if c is not None:
                     return c
-            if len(segs) >= 2 and segs[-2] in ("u8", "u16", "u32", "u64", "usize", "i32", "i64") and name in ("MAX", "MIN"):
+            if len(segs) >= 2 and segs[-2] in ("u8", "u16", "u32", "u64", "usize", "i8", "i16", "i32", "i64", "isize") and name in ("MAX", "MIN"):
                 bits = {"u8": 8, "u16": 16, "u32": 32, "u64": 64, "usize": 64}.get(segs[-2])
-                if bits and name == "MAX":
-                    return (1 << bits) - 1
                 if bits:
-                    return 0
+                    return (1 << bits) - 1 if name == "MAX" else 0
+                sb = {"i8": 8, "i16": 16, "i32": 32, "i64": 64, "isize": 64}[segs[-2]]
+                return (1 << (sb - 1)) - 1 if name == "MAX" else -(1 << (sb - 1))
             if len(segs) >= 2 and name[0].isupper():
                 return ("Variant", name)
             return Opaque(p.text(e))
@@ -1103,8 +1153,15 @@ class Evaluator:
         if k == "index":
             v = self.ev(e[1], env, p, scopes)
             i = self.ev(e[2], env, p, scopes)
-            if isinstance(v, tuple) and v and v[0] == "Bytes" and isinstance(i, int):
-                return v[1][i]
+            if isinstance(v, tuple) and v and v[0] == "Bytes" and isinstance(i, int) and not isinstance(i, bool):
+                if 0 <= i < len(v[1]):
+                    return v[1][i]
+                raise Leave("panic", "index out of bounds")
+            if isinstance(v, tuple) and v and v[0] == "Bytes" and isinstance(i, tuple) and i and i[0] == "Range":
+                lo = 0 if i[1] is None else i[1]
+                hi = len(v[1]) if i[2] is None else (i[2] + 1 if i[3] else i[2])
+                if isinstance(lo, int) and isinstance(hi, int):
+                    return ("Bytes", tuple(v[1][lo:hi]))
             return Opaque(p.text(e))
         if k == "struct":
             return Opaque(p.text(e))
@@ -1259,6 +1316,9 @@ class Evaluator:
             except Leave as l:
                 if l.how == "return":
                     return l.value
+                if l.how == "unknown":
+                    del self.effects[mark:]      # (lenient mode) a callee whose course is unknown is an opaque call
+                    return None
                 raise
             except Unknown:
                 # the callee depends on state we do not model (self.*, I/O …): the call stays opaque
@@ -1280,6 +1340,14 @@ class Evaluator:
                 r = self.call_fn(name, vals, scopes, p.text(e))
                 if r is not None:
                     return r
+            if name == "size_of" and not vals and getattr(fn, "generics", None) in TYPE_SIZE:
+                return TYPE_SIZE[fn.generics]
+            if name in ("from_be_bytes", "from_le_bytes") and len(vals) == 1 and isinstance(vals[0], tuple) and vals[0] and vals[0][0] == "Bytes":
+                bs = list(vals[0][1]) if name == "from_be_bytes" else list(reversed(vals[0][1]))
+                r = 0
+                for x in bs:
+                    r = (r << 8) | x
+                return r
             if name == "min" and len(vals) == 2 and all(isinstance(v, int) for v in vals):
                 return min(vals)
             if name == "max" and len(vals) == 2 and all(isinstance(v, int) for v in vals):
@@ -1342,6 +1410,12 @@ class Evaluator:
                 return max(r, 0) if name.startswith("saturating") else r
             if name in ("min", "max") and len(args) == 1 and isinstance(args[0], int):
                 return min(recv, args[0]) if name == "min" else max(recv, args[0])
+            if name == "div_ceil" and len(args) == 1 and isinstance(args[0], int) and args[0] > 0:
+                return -(-recv // args[0])
+            if name == "pow" and len(args) == 1 and isinstance(args[0], int):
+                return recv ** args[0]
+            if name in ("wrapping_mul", "saturating_mul") and len(args) == 1 and isinstance(args[0], int):
+                return recv * args[0]
             if name in ("into", "clone", "to_owned"):
                 return recv
             if name == "eq_ignore_ascii_case":
@@ -1414,11 +1488,12 @@ class Outcome:
         return self.how in ("error", "panic") or (isinstance(self.value, tuple) and bool(self.value) and self.value[0] == "Err")
 
 
-def run(X, code, env, src, scopes=None, depth=6, is_expr=False, inject=None):
+def run(X, code, env, src, scopes=None, depth=6, is_expr=False, inject=None, lenient=False):
     """run `code` (the inside of a block, or one expression) with the given environment; inject = {local name: value} gives
     the values of locals that the code itself binds from something opaque (`let c = self.peek_byte()?;`)"""
     ev = Evaluator(src, X, depth)
     ev.inject = dict(inject or {})
+    ev.lenient = lenient
     scopes = list(scopes or []) + [src]
     if code not in scopes:
         scopes = [code] + scopes
